@@ -120,6 +120,10 @@ func (lcm *LCM) DecodeFromBytes(data []byte, df gopacket.DecodeFeedback) error {
 		df.SetTruncated()
 		return errors.New("LCM < 8 bytes")
 	}
+	// the fragment fields, channel name and fingerprint are only present in
+	// some messages: do not keep those of an earlier decode
+	*lcm = LCM{}
+
 	offset := 0
 
 	lcm.Magic = binary.BigEndian.Uint32(data[offset:4])
